@@ -15,6 +15,11 @@ session 3: every serializer also in debug=True mode (bare, wrapped and as the wr
           "carrying the unread remainder": streams of well-delimited frames known by construction (vlib/genericfr.py): the valid
           frames behind a malformed one are still delivered (mode stream), and the remainder object itself equals the bytes
           after the malformed frame (mode direct: protocol generators driven by hand).
+session 4: 20 text encodings x 6 error handlers for line / JSON / named-tuple text fields (codecs differ in the exception class
+          they report malformed input with), malformed input per codec (sers.CODEC_BAD) in corpus and generator; every other
+          constructor option (sers.vary, malformed=True); hostile pickles; size errors of separator framers: the remainder carried
+          is exactly the unread bytes (behind the terminator / the received beginning of the terminator) and decoding resumes
+          behind the over-long token (vlib/genericfr.py `_limit_remainder`, `_resumes_after_big`, `_overlong_family`).
 """
 from __future__ import annotations
 
@@ -367,12 +372,18 @@ def _specs(rng) -> dict:
     inner = spec.get("inner")
     if inner is not None and rng.random() < 0.5:
         spec["inner"] = {**inner, "debug": True}
+    # session 4: constructor options from their legal domain — for malformed input that is EVERY text encoding (utf-16, utf-32,
+    # utf-7, idna, punycode, cp1252, shift_jis, unicode_escape…: codecs differ in the exception class they report malformed
+    # input with) x every error handler that exists for decoding, JSON decoder knobs, struct formats, named-tuple fields,
+    # keyed checksums, pickle unpickler options, wrappers around any inner serializer
+    if rng.random() < 0.6:
+        sers.vary(rng, spec, malformed=True)
     return spec
 
 
 def _specs0(rng) -> dict:
     lim = rng.choice([16, 64, 256, 65536])
-    k = rng.choice(["line", "jsonl", "jsonraw", "struct", "ntstruct", "b64", "zlib", "bz2", "autosep", "fixed", "filetoy", "pickle",
+    k = rng.choice(["line", "line", "jsonl", "jsonraw", "struct", "ntstruct", "b64", "zlib", "bz2", "autosep", "fixed", "filetoy", "pickle",
                     "filepeek", "fileahead"])
     if k == "line":
         return {"k": "line", "newline": rng.choice(["LF", "CR", "CRLF"]), "keep_end": rng.random() < 0.3,
@@ -447,6 +458,90 @@ def _extreme(rng, spec: dict) -> bytes:
     return b"1e" + b"9" * min(n - 4, 400) + b"\n"
 
 
+def _codec_malformed(rng, spec: dict, leaf: dict, mode: str) -> bytes:
+    enc = leaf["encoding"]
+    cands = sers.CODEC_BAD.get(enc) or sers.CODEC_BAD["utf-8"]
+    sep = sers.separator(spec) if spec is leaf or spec["k"] == "json" else None
+    if leaf["k"] == "ntstruct" and spec is leaf and "fields" in leaf:
+        import struct as _struct
+        size = _struct.calcsize(sers.nt_format(leaf))
+        out = b""
+        for _ in range(1 if mode == "oneshot" else rng.randint(1, 3)):
+            b = rng.choice(cands)
+            out += (b * (size // max(1, len(b)) + 1))[:size]
+        return out
+    parts = []
+    for _ in range(1 if mode == "oneshot" else rng.randint(1, 4)):
+        b = rng.choice(cands) if rng.random() < 0.7 else b"ok"
+        if rng.random() < 0.3:
+            b = b"x" + b + b"."
+        parts.append(b + (sep or b"\n" if mode != "oneshot" else b""))
+    return b"".join(parts)
+
+
+def _codec_corpus() -> list[dict]:
+    """every text encoding x the inputs its codec rejects (sers.CODEC_BAD: idna / punycode report them with a plain UnicodeError,
+    the others with UnicodeDecodeError) x line / JSON lines / raw JSON / named-tuple struct x all three entry points x debug x
+    drip feed / small reads / one read, each stream ending with a valid frame"""
+    import struct as _struct
+    out = []
+    for enc, bads in sers.CODEC_BAD.items():
+        bads = [b for b in bads if b"\n" not in b and b"\r" not in b]
+        if not bads:
+            continue
+        for dbg in (False, True):
+            specs = [{"k": "line", "newline": "LF", "keep_end": dbg, "encoding": enc, "errors": "strict", "limit": 256, "debug": dbg},
+                     {"k": "json", "use_lines": True, "limit": 256, "encoding": enc, "errors": "strict", "debug": dbg}]
+            if not dbg:
+                specs.append({"k": "line", "newline": "CRLF", "keep_end": False, "encoding": enc, "errors": "surrogateescape", "limit": 256})
+                specs.append({"k": "json", "use_lines": False, "limit": 256, "encoding": enc, "errors": "strict", "debug": True})
+            for spec in specs:
+                sep = sers.separator(spec) or b"\n"
+                stream = b"".join(b + sep for b in bads) + b"0" + sep
+                for b in bads:
+                    out.append({"spec": spec, "mode": "oneshot", "data": b.hex(), "cuts": [4096], "hint": 64, "origin": "codec"})
+                for mode in ("copy", "buffered") if sers.is_buffered(spec) else ("copy",):
+                    for cuts in ([4096], [1], [5, 2]):
+                        out.append({"spec": spec, "mode": mode, "data": stream.hex(), "cuts": cuts, "hint": 16, "origin": "codec"})
+        for strip in (True, False):
+            spec = {"k": "ntstruct", "fields": [["n", "B"], ["name", "8s"]], "endian": "!", "encoding": enc, "errors": "strict", "strip": strip,
+                    "debug": strip}
+            frames = [_struct.pack("!B8s", 1, b) for b in bads if len(b) <= 8]
+            if frames:
+                for f in frames:
+                    out.append({"spec": spec, "mode": "oneshot", "data": f.hex(), "cuts": [4096], "hint": 64, "origin": "codec"})
+                for mode in ("copy", "buffered"):
+                    for cuts in ([4096], [1]):
+                        out.append({"spec": spec, "mode": mode, "data": b"".join(frames).hex(), "cuts": cuts, "hint": 16, "origin": "codec"})
+    return out
+
+
+def _hostile_pickles() -> list[dict]:
+    """well-formed pickles whose loading raises (sers.HOSTILE_PICKLES, the classes of the declared pickle alphabet): bare (one-shot)
+    and inside base64 / zlib / bz2 (all three entry points), each followed by a valid frame"""
+    import base64
+    import bz2
+    import zlib
+    out = []
+    skip = ("StopIteration", "FileNotFoundError")     # outside the declared alphabet of the pickle pipeline (C05 uses them)
+    blobs = [b for n, b in sers.HOSTILE_PICKLES.items() if n not in skip]
+    for dbg in (False, True):
+        pk = {"k": "pickle", "debug": dbg}
+        for b in blobs:
+            out.append({"spec": pk, "mode": "oneshot", "data": b.hex(), "cuts": [4096], "hint": 64, "origin": "hostile"})
+        for spec, enc, sep in (({"k": "b64", "inner": pk, "alphabet": "urlsafe", "checksum": False, "separator": "0d0a", "limit": 65536, "debug": dbg},
+                                base64.urlsafe_b64encode, b"\r\n"),
+                               ({"k": "zlib", "inner": pk, "debug": dbg}, zlib.compress, b""), ({"k": "bz2", "inner": pk, "debug": dbg}, bz2.compress, b"")):
+            good = enc(sers.build(pk).serialize(1)) + sep
+            for b in blobs:
+                out.append({"spec": spec, "mode": "oneshot", "data": enc(b).hex(), "cuts": [4096], "hint": 64, "origin": "hostile"})
+            stream = b"".join(enc(b) + sep + good for b in blobs)
+            for mode in ("copy", "buffered"):
+                for cuts in ([4096], [7]):
+                    out.append({"spec": spec, "mode": mode, "data": stream.hex(), "cuts": cuts, "hint": 64, "origin": "hostile"})
+    return out
+
+
 def _injection_cases() -> list[dict]:
     """every (pipeline, alphabet class) pair for which a public injection hook exists"""
     from translate import exc_tables
@@ -475,6 +570,8 @@ def corpus() -> list[dict]:
     for mode in ("oneshot", "copy", "buffered"):
         out.append({"spec": b64, "mode": mode, "data": b"!!!!\r\nQUJD\r\n====\r\n".hex(), "cuts": [3], "hint": 8, "origin": "random"})
     out += _debug_corpus()
+    out += _codec_corpus()
+    out += _hostile_pickles()
     return out + _injection_cases()
 
 
@@ -543,7 +640,13 @@ def generate(rng, tier: str, boost: int):
         mode = rng.choice(modes)
         r = rng.random()
         origin = "random"
-        if r < 0.3:
+        leaf = sers._leaf_spec(spec)
+        if leaf.get("encoding") and rng.random() < 0.3:
+            # what the text codec in use reports as malformed (idna: empty / over-long labels, broken punycode; utf-16: odd
+            # length, lone surrogate halves; utf-7: bad base64 runs; …), framed or bare, between valid frames
+            data = _codec_malformed(rng, spec, leaf, mode)
+            origin = "codec"
+        elif r < 0.3:
             data = rng.randbytes(rng.randint(0, 40))
         elif r < 0.85:
             # mutation of a valid stream / datagram
